@@ -320,6 +320,7 @@ def _clone(mab, how):
 
 @twin("copy_vs_original")
 @T.quiet
+@T.plain_rng
 def copy_vs_original(scn):
     T.register_labels(scn)
     a = S.make_mab(scn["cfg"])
@@ -456,6 +457,7 @@ def is_k3(cfg):
 
 @twin("njobs_vs_one")
 @T.quiet
+@T.plain_rng
 def njobs_vs_one(scn):
     T.register_labels(scn)
     a = S.make_mab(dict(scn["cfg"], n_jobs=1, backend=None))
@@ -1496,6 +1498,9 @@ def simulator_vs_public_api(scn):
                 if not nbr:
                     m.predict_expectations(ctx[b])       # the protocol reads expectations after predicting
             else:
+                if det:
+                    # context-free: one expectation record per batch, read before the batch is learned
+                    exps.append(copy.deepcopy(m).predict_expectations())
                 preds += [m.predict() for _ in b]
             if bs > 0:
                 if ctxual:
@@ -1509,6 +1514,14 @@ def simulator_vs_public_api(scn):
             return "bandit %d (%s/%s): Simulator predictions differ from the public-API replay at test rows %r: %r vs %r" % (
                 i, cfg["lp"]["k"], npk, bad, [got[j] for j in bad], [want[j] for j in bad]) if len(got) == len(want) else \
                 "bandit %d: Simulator reports %d predictions, the replay %d" % (i, len(got), len(want))
+        if not ctxual and det:
+            rep = sim.bandit_to_expectations[name]
+            gote = T.canon(list(rep) if isinstance(rep, list) else [rep])
+            wante = T.canon(exps)
+            if len(gote) != len(wante) or not T.same(gote, wante, 1e-9):
+                bad = [j for j, (x, y) in enumerate(zip(gote, wante)) if not T.same(x, y, 1e-9)][:3]
+                return "bandit %d (%s): Simulator reports %d expectation records %r, the public-API replay %d records %r (first differences at %r)" % (
+                    i, cfg["lp"]["k"], len(gote), gote[:3], len(wante), wante[:3], bad)
         if ctxual and det:
             gote = T.canon(list(sim.bandit_to_expectations[name]))
             wante = T.canon(exps)
